@@ -124,13 +124,23 @@ Proof.
   unfold next_ok. rewrite H1. repeat split; auto; try lia.
 Qed.
 
+(** amplitude limit, on the sample summary the model keeps of each pulse *)
+Definition pamp_ok (g : ccfg) (p : pulse) : Prop :=
+  match c_maxamp g with Some m => f_gt (p_amax p) m = false | None => True end.
+Definition amp_ok (g : ccfg) (s : slot) : Prop :=
+  match s_kind s with KPulse p => pamp_ok g p | _ => True end.
+(** a defined maximum amplitude is not negative (Channel.__post_init__) *)
+Definition cfg_amp_ok (g : ccfg) : Prop :=
+  match c_maxamp g with Some m => f_gt zero m = false | None => True end.
+
 (** * Channel and schedule extension *)
 Section WithEnv.
 Variable e : env.
 
 Definition chan_ok (c : chan) : Prop :=
   cfg_ok (ch_cfg c) /\ tiled (ch_cfg c) (ch_slots c) /\
-  Forall (fun sl => le_opt (s_tf sl) (en_max e)) (ch_slots c).
+  Forall (fun sl => le_opt (s_tf sl) (en_max e)) (ch_slots c) /\
+  cfg_amp_ok (ch_cfg c) /\ Forall (amp_ok (ch_cfg c)) (ch_slots c).
 
 Definition chan_ext (c c' : chan) : Prop :=
   ch_name c' = ch_name c /\ ch_id c' = ch_id c /\ ch_cfg c' = ch_cfg c /\
@@ -215,7 +225,7 @@ Definition fits (c : chan) (sl : slot) : Prop :=
   | last :: _ =>
       s_ti sl = s_tf last /\ s_ti sl <= s_tf sl /\
       (c_clock (ch_cfg c) | s_tf sl) /\ len_ok (ch_cfg c) sl
-  end /\ le_opt (s_tf sl) (en_max e).
+  end /\ le_opt (s_tf sl) (en_max e) /\ amp_ok (ch_cfg c) sl.
 
 Lemma push_ext c sl :
   fits c sl -> chan_ext c (set_slots c (sl :: ch_slots c)).
@@ -223,8 +233,8 @@ Proof.
   intros Hf. unfold chan_ext, set_slots; cbn.
   split; [|split; [|split; [|split; [|split]]]]; auto.
   - exists [sl]. reflexivity.
-  - unfold chan_ok; cbn. intros (Hg & Ht & Hb). destruct Hf as [Hf Hle].
-    split; [auto|]. split; [|constructor; auto].
+  - unfold chan_ok; cbn. intros (Hg & Ht & Hb & Hca & Ha). destruct Hf as (Hf & Hle & Hamp).
+    split; [auto|]. split; [|split; [constructor; auto|split; [auto|constructor; auto]]].
     destruct (ch_slots c) as [|last r].
     + cbn. auto.
     + destruct Hf as (F1 & F2 & F3 & F4). apply tiled_push; auto.
@@ -319,15 +329,16 @@ Proof.
   rewrite Hc in H2. inv H2.
   mbind H s3 d' H3; apply lift_inv in H3; destruct H3 as [-> H3]; [|apply sx_refl].
   mbind H s4 u H4; apply lift_inv in H4; destruct H4 as [-> H4]; [|apply sx_refl].
-  pose proof (find_chan_ok _ _ _ Hok Hc) as (Hg & Ht & Hbd).
+  pose proof (find_chan_ok _ _ _ Hok Hc) as (Hg & Ht & Hbd & Hca & Hamps).
   symmetry in H4. destruct u. apply check_duration_ok in H4.
   symmetry in H3. apply validate_duration_spec in H3; auto.
   destruct H3 as (V1 & V2 & V3 & V4 & _).
   rewrite Hs in Ht. pose proof (tiled_head_tf _ _ _ Ht) as [Hn Hd].
   assert (Hmin : 0 < c_min (ch_cfg c')) by (destruct Hg; auto).
   assert (Hfit : forall k, len_ok (ch_cfg c') {| s_kind := k; s_ti := s_tf lst; s_tf := s_tf lst + d'; s_tg := s_tg lst |} ->
+                 amp_ok (ch_cfg c') {| s_kind := k; s_ti := s_tf lst; s_tf := s_tf lst + d'; s_tg := s_tg lst |} ->
                  fits c' {| s_kind := k; s_ti := s_tf lst; s_tf := s_tf lst + d'; s_tg := s_tg lst |}).
-  { intros k Hl. unfold fits. rewrite Hs. cbn. repeat split; auto; try lia.
+  { intros k Hl Hak. unfold fits. rewrite Hs. cbn. repeat split; auto; try lia.
     apply Z.divide_add_r; auto. }
   destruct (in_eom c' && _).
   - replace s' with (fst (append_slot n
@@ -337,11 +348,12 @@ Proof.
           s_ti := s_tf lst; s_tf := s_tf lst + d'; s_tg := s_tg lst |} s))
       by (rewrite H; reflexivity).
     eapply append_slot_sx; eauto. apply Hfit.
-    unfold len_ok; cbn. lia.
+    + unfold len_ok; cbn. lia.
+    + unfold amp_ok, pamp_ok, mk_dd_pulse, with_falls; cbn. exact Hca.
   - replace s' with (fst (append_slot n
        {| s_kind := KDelay; s_ti := s_tf lst; s_tf := s_tf lst + d'; s_tg := s_tg lst |} s))
       by (rewrite H; reflexivity).
-    eapply append_slot_sx; eauto. apply Hfit. unfold len_ok; cbn. lia.
+    eapply append_slot_sx; eauto. apply Hfit; [unfold len_ok; cbn; lia|exact I].
 Qed.
 
 (** ** Generic composition *)
@@ -459,7 +471,7 @@ Proof.
 Qed.
 
 Definition pulse_fits (g : ccfg) (p : pulse) : Prop :=
-  c_min g <= p_dur p /\ (c_clock g | p_dur p).
+  c_min g <= p_dur p /\ (c_clock g | p_dur p) /\ pamp_ok g p.
 
 (** make_next_pulse_slot is read-only and places the pulse after an
     admissible delay *)
@@ -472,7 +484,7 @@ Lemma mnps_spec p n barriers proto dp block s s' r :
   | Ok sl =>
       exists c lst rest dd p',
         find_chan n s = Some c /\ ch_slots c = lst :: rest /\
-        s_kind sl = KPulse p' /\ p_dur p' = p_dur p /\
+        s_kind sl = KPulse p' /\ p_dur p' = p_dur p /\ p_amax p' = p_amax p /\
         s_ti sl = s_tf lst + dd /\ s_tf sl = s_ti sl + p_dur p /\
         s_tg sl = s_tg lst /\
         (dd = 0 \/ (c_min (ch_cfg c) <= dd /\ (c_clock (ch_cfg c) | dd))) /\
@@ -495,7 +507,7 @@ Proof.
                   (fold_max barriers (s_tf lst))) as G2.
     destruct (last_pulse_slot true (ch_slots c')) as [[lps lp]|]; [|inv EX; lia].
     destruct (f_ne _ _); inv EX; lia. }
-  pose proof (find_chan_ok _ _ _ Hok Hc) as (Hg & Ht & Hbd).
+  pose proof (find_chan_ok _ _ _ Hok Hc) as (Hg & Ht & Hbd & _).
   mbind H s4 dd' H4.
   2:{ destruct (_ >? 0).
       - apply lift_inv in H4. tauto.
@@ -512,6 +524,7 @@ Proof.
   apply ret_inv in H. destruct H as [-> ->]. split; auto.
   eexists c', lst, rest, dd', _. cbn.
   split; [eauto|]. split; [eauto|]. split; [reflexivity|].
+  split; [cbn; destruct dp; reflexivity|].
   split; [cbn; destruct dp; reflexivity|].
   split; [reflexivity|]. split; [reflexivity|]. split; [reflexivity|].
   split; [exact Hdd|].
